@@ -78,6 +78,8 @@ type State struct {
 	trace   []string
 	dead    bool
 	callSeq map[string]int
+	fwd     map[string]*fwdCache
+	refClass map[string]int8 // syntactic classification of reference terms on this path (fresh / old)
 }
 
 func NewState() *State {
@@ -100,6 +102,19 @@ func (s *State) Clone() *State {
 	}
 	n.allocs = append([]*Term(nil), s.allocs...)
 	n.trace = append([]string(nil), s.trace...)
+	if s.refClass != nil {
+		n.refClass = make(map[string]int8, len(s.refClass))
+		for k, v := range s.refClass {
+			n.refClass[k] = v
+		}
+	}
+	if s.fwd != nil {
+		n.fwd = make(map[string]*fwdCache, len(s.fwd))
+		for k, c := range s.fwd {
+			// caches are replaced, never mutated in place, so sharing is safe
+			n.fwd[k] = c
+		}
+	}
 	return n
 }
 
@@ -527,14 +542,17 @@ func (x *Exec) newRef(st *State, hint string) *Term {
 	x.allocCount++
 	r := x.freshSym("ref."+hint, SInt)
 	// distinct from every previously allocated ref on this path and from "old" refs: r > allocBase and multiples of K
-	st.Assume(Eq(r, IntBin("*", IntConstI(refK), IntBin("+", x.allocBase, IntConstI(int64(x.allocCount))))))
+	def := Eq(r, IntBin("*", IntConstI(refK), IntBin("+", x.allocBase, IntConstI(int64(x.allocCount)))))
+	st.Assume(&Term{S: def.S, Sort: SBool, Def: r.S})
 	st.allocs = append(st.allocs, r)
+	st.setClass(r, refFresh)
 	return r
 }
 
 // assumeOld states that ref is not a freshly allocated object of this run (it existed at entry).
 func (x *Exec) assumeOld(st *State, ref *Term) {
 	st.Assume(IntCmp("<=", ref, IntBin("*", IntConstI(refK), x.allocBase)))
+	st.setClass(ref, refOld)
 }
 
 // ---------- heap ----------
@@ -597,7 +615,7 @@ func (x *Exec) loadAt(st *State, prefix string, idx *Term, t types.Type) Value {
 	var ts []*Term
 	for _, c := range cs {
 		arr := x.heapArr(st, prefix+c.suffix, idx.Sort, c.sort)
-		ts = append(ts, Select(arr, idx))
+		ts = append(ts, x.heapSelect(st, prefix+c.suffix, arr, idx))
 	}
 	v, _ := x.unflatten(t, ts)
 	// every value stored in memory satisfies its representation invariant (len <= cap, ...):
@@ -611,8 +629,8 @@ func (x *Exec) storeAt(st *State, prefix string, idx *Term, t types.Type, v Valu
 	ts := x.flatten(t, v)
 	for i, c := range cs {
 		name := prefix + c.suffix
-		arr := x.heapArr(st, name, idx.Sort, c.sort)
-		st.heap[name] = x.nameTerm(st, Store(arr, idx, ts[i]), "h")
+		x.heapArr(st, name, idx.Sort, c.sort)
+		x.heapStoreFwd(st, name, idx, ts[i])
 	}
 }
 
@@ -622,7 +640,10 @@ func (x *Exec) nameTerm(st *State, t *Term, hint string) *Term {
 		return t
 	}
 	c := x.freshSym(hint, t.Sort)
-	st.Assume(&Term{S: "(= " + c.S + " " + t.S + ")", Sort: SBool})
+	st.Assume(&Term{S: "(= " + c.S + " " + t.S + ")", Sort: SBool, Def: c.S})
+	if cl, ok := st.refClass[t.S]; ok {
+		st.setClass(c, cl)
+	}
 	return c
 }
 
@@ -662,7 +683,7 @@ func (x *Exec) loadStruct(st *State, ref *Term, named types.Type) Value {
 
 func (x *Exec) loadField(st *State, ref *Term, owner string, f *types.Var) Value {
 	if _, ok := f.Type().Underlying().(*types.Struct); ok {
-		return x.loadStruct(st, x.subRef(ref, owner, f.Name()), f.Type())
+		return x.loadStruct(st, x.subRefSt(st, ref, owner, f.Name()), f.Type())
 	}
 	return x.loadAt(st, fieldPrefix(owner, f.Name()), ref, f.Type())
 }
@@ -679,7 +700,7 @@ func (x *Exec) storeStruct(st *State, ref *Term, named types.Type, v Value) {
 
 func (x *Exec) storeField(st *State, ref *Term, owner string, f *types.Var, v Value) {
 	if _, ok := f.Type().Underlying().(*types.Struct); ok {
-		x.storeStruct(st, x.subRef(ref, owner, f.Name()), f.Type(), v)
+		x.storeStruct(st, x.subRefSt(st, ref, owner, f.Name()), f.Type(), v)
 		return
 	}
 	x.storeAt(st, fieldPrefix(owner, f.Name()), ref, f.Type(), v)
